@@ -130,6 +130,29 @@ theorem convertCoef2d_preserves_exclusion (mc : Option Nat) (c : List (List Rat)
     simp [List.getD_eq_getElem?_getD, this]
   exact convertCoef2d_excluded mc c ox sx oz sz (by rw [h0]; exact hex) i j hi (by rw [h0]; exact hj) hij
 
+/-- the whole 2-D chain with `max_cross`: for ANY solver output `coef`, the coefficient matrix with its excluded
+entries zero, converted to the user's domains, (1) evaluates on the user's `(x, z)` to the row of the zeroed
+Vandermonde matrix at the mapped point times `coef` — the returned baseline — and (2) is zero at every excluded
+monomial, so the exclusion can be checked on the returned coefficients -/
+theorem maxCross_returned_coef (a b : Nat) (mc : Option Nat) (coef : List Rat) (ox sx oz sz x z : Rat)
+    (hsx : sx ≠ 0) (hsz : sz ≠ 0) :
+    evalPoly2 (convertCoef2d (maskCoef mc (reshapeCoef a b coef)) ox sx oz sz) x z =
+      dot (vanderRowMasked a b mc ((x - ox) / sx) ((z - oz) / sz)) coef ∧
+    ∀ i j, i ≤ a → j ≤ b → allowed mc i j = false →
+      ((convertCoef2d (maskCoef mc (reshapeCoef a b coef)) ox sx oz sz).getD i []).getD j 0 = 0 := by
+  have hrect := maskCoef_reshape_rect a b mc coef
+  have hlen : (maskCoef mc (reshapeCoef a b coef)).length = a + 1 := by
+    rw [maskCoef_length, reshapeCoef_length]
+  refine ⟨?_, ?_⟩
+  · rw [Lemmas.convertCoef2d_eval _ (b + 1) hrect ox sx oz sz x z hsx hsz, Lemmas.vander_masked_apply]
+  · intro i j hi hj hij
+    refine convertCoef2d_preserves_exclusion mc _ (b + 1) hrect ox sx oz sz ?_ i j (by omega) (by omega) hij
+    intro k l hk hl hkl
+    rw [hlen] at hk
+    have hk' : k < (reshapeCoef a b coef).length := by rw [reshapeCoef_length]; exact hk
+    refine maskCoef_excluded mc _ k l hk' ?_ hkl
+    rw [reshapeCoef_row a b coef k hk, List.length_map, List.length_range]; exact hl
+
 /-- non-vacuity, (a, b) = (1, 3), max_cross = 1: columns of x z² and x z³ go, x z stays -/
 example : keptCols 1 3 (some 1) = [true, true, true, true, true, true, false, false] ∧
     keptCols 1 3 none = List.replicate 8 true ∧ keptCols 1 3 (some 3) = keptCols 1 3 none ∧
@@ -145,5 +168,9 @@ example : dot (vanderRowMasked 1 3 (some 1) 2 3) [1, 2, 3, 4, 5, 6, 7, 8] = 188 
 the excluded entries stay 0, the allowed cross term x z does not vanish -/
 example : convertCoef2d [[1, 2, 3, 4], [5, 6, 0, 0]] 12 2 (-3) (1/2) =
     [[739, 868, 300, 32], [41/2, 6, 0, 0]] := by decide +kernel
+/-- the chain on a concrete point: user domains [10, 14] × [-7/2, -5/2], (x, z) = (13, -11/4) ↦ (1/2, 1/2) -/
+example : evalPoly2 (convertCoef2d (maskCoef (some 1) (reshapeCoef 1 3 [1, 2, 3, 4, 5, 6, 7, 8])) 12 2 (-3) (1/2)) 13 (-11/4) =
+      dot (vanderRowMasked 1 3 (some 1) (1/2) (1/2)) [1, 2, 3, 4, 5, 6, 7, 8] ∧
+    dot (vanderRowMasked 1 3 (some 1) (1/2) (1/2)) [1, 2, 3, 4, 5, 6, 7, 8] = 29/4 := by decide +kernel
 
 end PbVerif.C08
